@@ -92,6 +92,53 @@ fn root_scenario(epochs: &[usize], floor_regrets: bool) -> (String, Vec<f32>, Ve
     (key(&bucket), weights, out)
 }
 
+/// many stored policies at the (13-edge) root information set: for each candidate the weights the
+/// real `Profile::weight` hands out, and on demand the choices over a range of epochs
+struct RootLab {
+    enc: Encoder,
+    tree: robopoker::mccfr::tree::Tree,
+    root_index: petgraph::graph::NodeIndex,
+    profile: Profile,
+    bucket: Bucket,
+    edges: Vec<Edge>,
+}
+impl RootLab {
+    fn new() -> Self {
+        use robopoker::mccfr::tree::Tree;
+        let enc = Encoder::default();
+        robopoker::verif::set_draw_index(Some(11));
+        let seed = enc.seed();
+        robopoker::verif::set_draw_index(None);
+        let mut tree = Tree::empty(Player::default());
+        let root_index = tree.plant(seed).index();
+        let mut profile = Profile::default();
+        let (bucket, edges) = {
+            let root = tree.at(root_index);
+            let branches = enc.branches(&root);
+            profile.witness(&root, &branches);
+            let bucket = root.bucket().clone();
+            let edges = Vec::<Edge>::from(bucket.2.clone());
+            (bucket, edges)
+        };
+        Self { enc, tree, root_index, profile, bucket, edges }
+    }
+    fn set(&mut self, policy: &[f32]) -> Vec<f32> {
+        for (e, w) in self.edges.iter().zip(policy) {
+            self.profile.verif_set_memory(&self.bucket, e, 1.0, *w);
+        }
+        self.edges.iter().map(|e| self.profile.weight(&self.bucket, e)).collect()
+    }
+    fn ask(&mut self, epochs: std::ops::Range<usize>) -> Vec<Option<usize>> {
+        let mut out = vec![];
+        for e in epochs {
+            self.profile.verif_set_epochs(e);
+            let root = self.tree.at(self.root_index);
+            out.push(catch(std::panic::AssertUnwindSafe(|| one(&self.profile, &self.enc, &root))).flatten());
+        }
+        out
+    }
+}
+
 fn main() {
     if std::env::var("RP_C20_CHILD").is_ok() {
         // child mode: print the root scenario's answers and exit
@@ -410,6 +457,70 @@ fn main() {
             }
         }
         run.count("skewed-root-frequency-test");
+    }
+    // ---- 9. unbiased draw for MANY trained-looking policies at a wide menu, chosen for their f32
+    // rounding: the weights handed out by Profile::weight rarely sum to exactly 1.0f32; candidates
+    // whose f32 sum is farthest from 1 (in either direction), the ones that sum exactly to 1, and
+    // random ones are each swept over epochs and tested edge by edge (6 sigma) against the weights;
+    // the model line `one` predicts every single answer as well
+    {
+        let mut lab = RootLab::new();
+        let m = lab.edges.len();
+        let ncand = if a.thorough() { 20_000 } else { 3_000 };
+        let mut cands: Vec<(f32, Vec<f32>)> = vec![];
+        for c in 0..ncand {
+            let policy: Vec<f32> = (0..m).map(|_| match c % 4 {
+                0 => (rng.below(1_000_000) as f32 + 1.0) / 1.0e6,                       // uniform magnitudes
+                1 => -((rng.below(1_000_000) as f32 + 1.0) / 1.0e6).ln() + 1e-3,          // exponential
+                2 => 10f32.powf(-(rng.below(4000) as f32) / 1000.0),                     // four decades
+                _ => (rng.below(50) as f32 + 1.0) * if rng.below(3) == 0 { 40.0 } else { 1.0 }, // accumulated counts
+            }).collect();
+            let w = lab.set(&policy);
+            let sum: f32 = w.iter().sum();
+            cands.push((sum - 1.0, policy));
+        }
+        cands.sort_by(|x, y| x.0.partial_cmp(&y.0).unwrap());
+        let nsel = if a.thorough() { 60 } else { 14 };
+        let mut chosen: Vec<Vec<f32>> = vec![];
+        for i in 0..nsel { chosen.push(cands[i].1.clone()); chosen.push(cands[cands.len() - 1 - i].1.clone()); }
+        let exact: Vec<&(f32, Vec<f32>)> = cands.iter().filter(|c| c.0 == 0.0).collect();
+        for i in 0..nsel.min(exact.len()) { chosen.push(exact[i * exact.len() / nsel.min(exact.len())].1.clone()); }
+        for i in 0..nsel { chosen.push(cands[(i * 7919 + 13) % cands.len()].1.clone()); }
+        let offsimplex = cands.iter().filter(|c| c.0.abs() > f32::EPSILON).count();
+        run.count(&format!("wide-menu candidates whose f32 weight sum is off 1 by more than one ulp: {offsimplex} of {ncand}"));
+        let n: usize = if a.thorough() { 6000 } else { 1500 };
+        for policy in chosen {
+            let weights = lab.set(&policy);
+            let base = rng.below(1 << 20) as usize;
+            let ans = lab.ask(base..base + n);
+            let mut hist = vec![0u64; m];
+            for (i, x) in ans.iter().enumerate() {
+                match x {
+                    Some(x) if *x < m => hist[*x] += 1,
+                    _ => run.fail("choice-out-of-range-or-panic", &format!("wide root bucket, weights {:?}, epoch {}", weights, base + i), "an index below the menu size", &format!("{:?}", x)),
+                }
+                if i < 4 {
+                    let op = format!("one {} {} {}", base + i, key(&lab.bucket), weights.iter().map(|w| w.to_bits().to_string()).collect::<Vec<_>>().join(" "));
+                    run.line(&op, &match x { Some(i) => i.to_string(), None => "panic".into() });
+                }
+            }
+            run.evaluations += n as u64;
+            run.spec_checked += 1;
+            let total: f64 = weights.iter().map(|w| *w as f64).sum();
+            let fsum: f32 = weights.iter().sum();
+            for (i, w) in weights.iter().enumerate() {
+                let p = *w as f64 / total;
+                let mean = n as f64 * p;
+                let sigma = (n as f64 * p * (1.0 - p)).sqrt().max(1.0);
+                if (hist[i] as f64 - mean).abs() > 6.0 * sigma {
+                    run.fail("choice-biased", &format!("wide root bucket {}, weights {:?} (f32 sum {:e} away from 1), epochs {base}..{}", key(&lab.bucket), weights, fsum - 1.0, base + n),
+                        &format!("edge {i} (weight {:.4}) chosen about {mean:.0} times", p), &format!("{} times (all edges: {:?})", hist[i], hist));
+                    break;
+                }
+            }
+            run.count("wide-menu-frequency-test");
+            run.distinct(&("wide", weights.iter().map(|w| w.to_bits()).collect::<Vec<_>>()));
+        }
     }
     // ---- 4. Layer::init twice / threads / rayon pools
     let npoints = if a.thorough() { 400 } else { 180 };
